@@ -74,7 +74,10 @@ func deviations(r *rand.Rand, ver version.Version) []deviation {
 		t         int64
 	}{{"dates wrap: -2^62..2^62", -(1 << 62), 1 << 62, 1600000000}, {"dates wrap: -2^63+1..t+1h", -(1<<63 - 1), 1600003600, 1600000000},
 		{"dates wrap: -2^63+1..2^63-1", -(1<<63 - 1), 1<<63 - 1, 1600000000}, {"date negative, short: -5..5 at 0", -5, 5, 0},
-		{"date negative, 7d+1: -604800..1 at 0", -604800, 1, 0}, {"date negative, 7d: -604799..1 at 1", -604799, 1, 1}} {
+		{"date negative, 7d+1: -604800..1 at 0", -604800, 1, 0}, {"date negative, 7d: -604799..1 at 1", -604799, 1, 1},
+		// seconds beyond what time.Unix represents without wrapping: still dates in the far future
+		{"date 2^63-1, expires t+1h", 1<<63 - 1, 1600003600, 1600000000}, {"date at the time.Unix wrap point, expires t+1h", 9223371974719179008, 1600003600, 1600000000},
+		{"date just below the wrap point, expires t+1h", 9223371974719179007, 1600003600, 1600000000}, {"date and expires beyond the wrap point", 9223371974719179008, 9223371974719179608, 1600000000}} {
 		w := w
 		add(w.n, func(sc *scenario) { sc.sp.date, sc.sp.expires, sc.absT, sc.hasAbsT = w.date, w.exp, w.t, true }, nil)
 	}
